@@ -145,5 +145,5 @@ def _callable_false(c):
     c.modifies()
 
 
-for _n in (1, 2, 3):
+for _n in (1, 2, 3, 4):          # entries = 4: thorough tier only
     _mk_volumes(_n)
